@@ -285,7 +285,7 @@ def correspondence(ctx) -> CorrResult:
     res = CorrResult()
     items = []
     dist = {"kinds": {}, "errors": {}, "frequencies": {}, "blocks": {}}
-    n = ctx.scale(2200, 90000)
+    n = ctx.scale(1600, 80000)
     # strings the library itself produces
     pool = []
     for _ in range(400):
@@ -349,7 +349,7 @@ def falsify(ctx, hints):
     NS = "ns = dict(yy=ir.yy, hh=ir.hh, qq=ir.qq, mm=ir.mm, dd=ir.dd, ii=ir.ii)\n"
     for it in range(ctx.scale(300, 8000)):
         f = rng.choice(FREQS)
-        s = rand_spec(rng, freq=f, lo=1, hi=9999, sloppy=0)
+        s = rand_spec(rng, freq=f, lo=1, hi=9950, sloppy=0)      # room for a later period inside the supported calendar
         P = py_spec(s)
         nm = NAMES[f]
         pre = f"p = {P}\n"
